@@ -699,21 +699,49 @@ fn lifetime(repo: &Path) -> Result<String, String> {
     // ---- 6. out-of-line data the code refers to by address
     let holders = data_holders(&cg, &all, &mut notes)?;
 
+    // ---- 7. a TestCase wraps the handle of its test function
+    let tg = find::parse(repo, "src/codegen/testing.rs")?;
+    let tc = find::struct_fields(&tg, "TestCase")?;
+    let tc_field = tc.iter().find(|(_, t)| t.starts_with("TypedFunc<")).map(|(n, _)| n.clone());
+    let test_holds = match &tc_field {
+        None => {
+            notes.push(format!("TestCase has no field of type TypedFunc<…>: {tc:?}"));
+            false
+        }
+        Some(f) => {
+            let new = find::func(&tg, "new", Some("TestCase"))?;
+            let run = find::func(&tg, "run", Some("TestCase"))?;
+            let get = find::func(&tg, "get_tests", None)?;
+            let new_t = norm(&new.block);
+            let stores = new_t.contains(&format!("{f},")) || new_t.contains(&format!("{f}}}")) || new_t.contains(&format!("{f}:{f}"));
+            let runs = norm(&run.block).contains(&format!("self.{f}.call_tuple(ctx,())"));
+            let get_t = norm(&get.block);
+            let builds = get_t.contains("TestCase::new(") && get_t.contains("module.get_function::<fn()->Verdict<(),()>>(");
+            let pkg_get = find::func(&pl, "get_tests", Some("Package"))?;
+            let pkg_ok = norm(&pkg_get.block).contains(&format!("get_tests(&mutself.{pkg_field})"));
+            if !(stores && runs && builds && pkg_ok) {
+                notes.push(format!("TestCase: stores the handle {stores}, runs through it {runs}, built from get_function {builds}, Package::get_tests forwards {pkg_ok}"));
+            }
+            stores && runs && builds && pkg_ok
+        }
+    };
+
     let b = |x: bool| if x { "true" } else { "false" };
     let mut out = String::new();
-    out.push_str("/- GENERATED by /verif/extract (target `lifetime`) from src/codegen/mod.rs, src/pipeline.rs, src/runtime/func.rs — do not edit.\n");
+    out.push_str("/- GENERATED by /verif/extract (target `lifetime`) from src/codegen/mod.rs, src/codegen/testing.rs, src/pipeline.rs, src/runtime/func.rs, Cargo.toml — do not edit.\n");
     for n in &notes {
         out.push_str(&format!("   {n}\n"));
     }
     out.push_str("-/\nimport RotoV.Model.Lifetime\nnamespace RotoV.Gen.Lifetime\nopen RotoV.Lifetime\n\n");
     out.push_str(&format!(
-        "def facts : Facts :=\n  {{ moduleFields := [{}]\n    handleHoldsArc := {}\n    constsCloned := {}\n    fnsCloned := {}\n    freeSites := [{}]\n    closureKeepsArc := {}\n    dataHolders := [{}] }}\n",
+        "def facts : Facts :=\n  {{ moduleFields := [{}]\n    handleHoldsArc := {}\n    constsCloned := {}\n    fnsCloned := {}\n    freeSites := [{}]\n    closureKeepsArc := {}\n    testHoldsHandle := {}\n    dataHolders := [{}] }}\n",
         lean_fields.iter().map(|f| format!(".{f}")).collect::<Vec<_>>().join(", "),
         b(handle_holds),
         b(consts_cloned),
         b(fns_cloned),
         sites.iter().map(|f| format!(".{f}")).collect::<Vec<_>>().join(", "),
         b(closure_keeps),
+        b(test_holds),
         holders.iter().map(|f| format!(".{f}")).collect::<Vec<_>>().join(", "),
     ));
     out.push_str("\nend RotoV.Gen.Lifetime\n");
